@@ -184,6 +184,9 @@ def check(c):
             if mode == 'qs':
                 cs = (c['cuts'] * scale2)[:, None]
                 cuts_ok = np.nanmin(np.abs(rows - cs)) > 1e-6
+            if mode == 'gs':
+                # the Gabriel test compares D[a,b] with D[a,k] + D[b,k]: exact ties (right angles on a lattice) flip with the rounding of the shifted coordinates
+                cuts_ok = bool(gabriel_brute(D, tol=1e-6)[1].all()) and bool(gabriel_brute(D2, tol=1e-6)[1].all())
             if np.allclose(D2, D, rtol=1e-9, atol=1e-9) and gaps > 1e-6 and cuts_ok:
                 m3 = fit_model(c, X + shift, w)
                 expect(np.array_equal(m3.labels_, labels), 'post:partition-invariant-under-periodic-images')
